@@ -354,14 +354,16 @@ def case_camera(H, npts, with_ext):
             P = torch.rand(npts, 3, dtype=DT) + 1
             K = torch.tensor([[2.0, 0.3, 4.5], [0, 2.0, 4.5], [0, 0, 1]], dtype=DT)
         K = K.clone(); K[1, 0] = 0; K[2, 0] = 0; K[2, 1] = 0; K[2, 2] = 1
-        if K[0, 0] == 0 or K[1, 1] == 0 or (P[:, 2].abs() < 1e-6).any():
+        if K[0, 0] == 0 or K[1, 1] == 0 or (P[:, 2].abs() < torch.finfo(DT).tiny).any():
             return False, 'outside the assumptions'
         d = torch.tensor([float(model.get('d0', 0.7)), float(model.get('d1', -0.7))], dtype=DT)
         px = pp.point2pixel(P, K)
         back = pp.pixel2point(px, P[:, 2], K)
-        e1 = (back - P).abs().max().item() / (1 + P.abs().max().item())
+        # relative to the size of the point itself (a tiny point is still a point), with the conditioning of K as allowance for round-off
+        cond = 1 + (K[0, 2] / K[0, 0]).abs().item() + (K[1, 2] / K[1, 1]).abs().item() + (K[0, 1] / K[0, 0]).abs().item()
+        e1 = ((back - P).abs().amax(-1) / P.abs().amax(-1)).max().item() / cond
         es_ = pp.reprojerr(P, px + d, K, reduction='sum')
-        e2 = (es_ - d.abs().sum()).abs().max().item()
+        e2 = ((es_ - d.abs().sum()).abs() / (1 + px.abs().amax(-1))).max().item()
         bad = e1 > 1e-9 or e2 > 1e-9 * (1 + d.abs().sum().item())
         return bad, ('pixel2point(point2pixel(p)) differs from p by %.3g (relative) for K=%s; reprojerr(sum) of pixels displaced by %s is %s (documented: L1 norm %.3g)'
                      % (e1, K.tolist(), d.tolist(), es_.tolist()[:2], d.abs().sum().item()))
@@ -495,6 +497,57 @@ def case_camera_batched(H, B, N):
                         key='C18/camera/inverse', timeout=20, replay=replay)
 
 
+def case_camera_intpixels(H):
+    """Configuration case: an integer pixel grid (torch.meshgrid of arange, int64) with floating depth and intrinsics:
+    pixel2point must still be the pinhole back-projection (type promotion, no truncation)."""
+    name = 'C18/camera/int64-pixel-grid'
+    pix = torch.tensor([[3, 5], [10, 2], [0, 7]], dtype=torch.int64)
+    N = pix.shape[0]
+
+    def concrete(model):
+        d = tensor_from_env(['z%d' % i for i in range(N)], model)
+        K = tensor_from_env(['k%d' % i for i in range(9)], model).view(3, 3)
+        if float(K.abs().sum()) == 0 or float(d.abs().sum()) == 0 or K[0, 0] == 0 or K[1, 1] == 0:
+            d = torch.tensor([1.7, 0.3, 2.9], dtype=DT)
+            K = torch.tensor([[2.5, 0.3, 4.5], [0, 2.0, 3.5], [0, 0, 1]], dtype=DT)
+        K = K.clone(); K[1, 0] = 0; K[2, 0] = 0; K[2, 1] = 0; K[2, 2] = 1
+        return d, K
+
+    def replay(model):
+        d, K = concrete(model)
+        out = pp.pixel2point(pix, d, K)
+        y = (pix[:, 1].to(DT) - K[1, 2]) * d / K[1, 1]
+        x = ((pix[:, 0].to(DT) - K[0, 2]) * d - K[0, 1] * y) / K[0, 0]
+        ref = torch.stack([x, y, d], -1)
+        if out.dtype != DT:
+            return True, 'pixel2point(int64 pixels, float64 depth, float64 intrinsics) returned dtype %s' % out.dtype
+        e = ((out - ref).abs().amax(-1) / ref.abs().amax(-1)).max().item()
+        return e > 1e-9, 'pixel2point on an int64 pixel grid differs from the pinhole back-projection by %.3g (relative), depth %s' % (e, d.tolist())
+
+    def prog(m):
+        d = torch.tensor([1.7, 0.3, 2.9], dtype=DT)
+        zs = m.symbolic(d, 'z')
+        Kt = torch.tensor([[2.5, 0.3, 4.5], [0, 2.0, 3.5], [0, 0, 1]], dtype=DT)
+        ks = m.symbolic(Kt, 'k')
+        m.ctx.assume += [ks[3] == 0, ks[6] == 0, ks[7] == 0, ks[8] == 1, ks[0] != 0, ks[4] != 0]
+        out = pp.pixel2point(pix, d, Kt)
+        return m.full_terms(out), out.dtype, tuple(out.shape), zs, ks
+
+    for ctx, (out, dtype, shape, zs, ks) in run_paths(H, name, prog, max_paths=8):
+        hyp = H.hyps_of(ctx)
+        pn = H.paths
+        H.prove('%s/path%d/dtype-and-shape' % (name, pn), [], z3.BoolVal(dtype == DT and shape == (N, 3)), replay=replay, key='C18/camera/inverse')
+        no_downcast_ob(H, ctx, '%s/path%d' % (name, pn), 'C18/camera/inverse', replay)
+        if shape != (N, 3):
+            continue
+        for i in range(N):
+            u, v = z3.RealVal(int(pix[i, 0])), z3.RealVal(int(pix[i, 1]))
+            Y = (v - ks[5]) * zs[i] / ks[4]
+            X = ((u - ks[2]) * zs[i] - ks[1] * Y) / ks[0]
+            H.prove('%s/path%d/back-projection[%d]' % (name, pn, i), hyp, z3.And(out[3 * i] == X, out[3 * i + 1] == Y, out[3 * i + 2] == zs[i]),
+                    replay=replay, key='C18/camera/inverse', timeout=20)
+
+
 def run(H):
     H.assumptions += ['exact real arithmetic', 'ties between distances excluded where indices matter (general position)',
                       'intrinsics of the pinhole form [[fx,s,cx],[0,fy,cy],[0,0,1]] with fx,fy != 0 and any skew s; |depth| >= tiny']
@@ -519,6 +572,7 @@ def run(H):
     jobs.append(lambda: case_camera(H, 1, True))
     jobs.append(lambda: case_camera_batched(H, 2, 3))
     jobs.append(lambda: case_camera_batched(H, 2, 2))
+    jobs.append(lambda: case_camera_intpixels(H))
     if not H.quick:
         jobs.append(lambda: case_knn(H, 2, 4, 2, 2, 2))
         jobs.append(lambda: case_knn_filter(H, 4, 1, 2, 1.0, 0))
